@@ -4,7 +4,7 @@
    reference sender and the correspondence of this model with the implementation (tools/props/c02.py); the packet-number
    part has its own theorems (C16), the key schedule too (C15). *)
 From Coq Require Import ZArith List Bool.
-Require Import PyLib QuicSession QuicBuildP.
+Require Import PyLib SuiteTypes Crypto KeySchedule QuicKeys QuicSession QuicBuildP QuicEpochP.
 Import ListNotations.
 Open Scope Z_scope.
 
@@ -26,6 +26,22 @@ Theorem C02_one_output_per_input_datagram : forall m runs, NoDup (map tsid runs)
   filter nonempty (quic_build m (flat_map run_frames runs)) = filter nonempty (map (run_dgram m) runs).
 Proof. exact build_one_per_datagram. Qed.
 Print Assumptions C02_one_output_per_input_datagram.
+
+(* key updates: G n = the connection's n-th application key generation (G (n+1) = key_update (G n), which C15_quic_key_update shows
+   to be RFC 9001 6.1).  As long as each direction's generation grows by at most one from one captured 1-RTT packet to the next, the
+   session selects exactly the sender's generation for every packet, whoever initiates the updates and however the directions interleave *)
+Theorem C02_key_phase_client : forall C h kl G, (forall n, key_update C (G n) h kl = Ok (G (S n))) ->
+  forall s gc gs g', Inv h kl G s gc gs -> (g' = gc \/ g' = S gc) ->
+  exists s', check_key_epoch C s (Z.of_nat g' mod 2) false = Ok s' /\ Inv h kl G s' g' gs /\
+             exists gens, qs_app s' = Some gens /\ nth_error gens (Z.to_nat (qs_epoch_client s')) = Some (G g').
+Proof. exact client_packet. Qed.
+Theorem C02_key_phase_server : forall C h kl G, (forall n, key_update C (G n) h kl = Ok (G (S n))) ->
+  forall s gc gs g', Inv h kl G s gc gs -> (g' = gs \/ g' = S gs) ->
+  exists s', check_key_epoch C s (Z.of_nat g' mod 2) true = Ok s' /\ Inv h kl G s' gc g' /\
+             exists gens, qs_app s' = Some gens /\ nth_error gens (Z.to_nat (qs_epoch_server s')) = Some (G g').
+Proof. exact server_packet. Qed.
+Print Assumptions C02_key_phase_client.
+Print Assumptions C02_key_phase_server.
 
 (* non-vacuity: two datagrams at different times, the first with a CRYPTO frame only, the second with two STREAM frames *)
 Example C02_example :
